@@ -3,7 +3,7 @@ import json, os, re, shutil, time
 from concurrent.futures import ThreadPoolExecutor
 from common import *
 
-KDIR = os.path.join(VERIF, "kani")
+KDIR = crate_dir("kani")
 KTARGET = os.path.join(BUILD, "kani")
 NTARGET = os.path.join(BUILD, "native")
 _built = {}
@@ -112,6 +112,7 @@ def run_harness(qname, timeout, mem_gb=16):
         r["status"] = "error"
     if r["status"] in ("error", "unwind", "timeout", "vacuous"):
         r["tail"] = out[-1500:]
+        r["oom"] = "out of memory" in out
     return r
 
 
@@ -149,6 +150,16 @@ def reproduced(rep):
 MEMORY_FAILURES = ("dereference failure", "deallocated", "dead object", "outside object bounds", "double free", "misaligned")
 
 
+def mem_available_gb():
+    try:
+        for line in open("/proc/meminfo"):
+            if line.startswith("MemAvailable:"):
+                return int(line.split()[1]) / 1e6
+    except OSError:
+        pass
+    return 64.0
+
+
 def run_set(res, harnesses, timeout, mem_gb=16, jobs=None, known=(), hunt=()):
     """harnesses: list of qualified names. Fills res (common.Result). known: list of
     (harness-name-regex, failed-check-regex, text) describing findings listed in known-findings.json."""
@@ -158,8 +169,27 @@ def run_set(res, harnesses, timeout, mem_gb=16, jobs=None, known=(), hunt=()):
     harnesses = [h[0] for h in items]
     jobs = jobs or max(1, min(NCPU, len(items)))
     t0 = time.time()
+    import threading
+    gate = threading.Lock()
+
+    def admitted(h):
+        # memory-aware admission: CBMC processes grow for minutes; starting another one while little memory is left
+        # makes several of them die of bad_alloc together (seen in the first thorough sweep). One harness starts at a
+        # time, and only when the machine still has room for it.
+        with gate:
+            waited = 0
+            while mem_available_gb() < min(h[2], 12) and waited < 1800:
+                time.sleep(5)
+                waited += 5
+        return run_harness(h[0], h[1], h[2])
+
     with ThreadPoolExecutor(jobs) as ex:
-        results = list(ex.map(lambda h: run_harness(h[0], h[1], h[2]), items))
+        results = list(ex.map(admitted, items))
+    # a harness that ran out of memory while others were running gets one more run on its own
+    for i, r in enumerate(results):
+        if r["status"] == "error" and r.get("oom") and items[i][0] not in hunt:
+            log(f"retrying {r['harness']} alone (out of memory in the parallel batch)")
+            results[i] = run_harness(*items[i])
     for r in results:
         st = r["status"]
         if st == "ok":
